@@ -26,7 +26,6 @@ def run(prog, rep):
     rep.rule("E4.g", "no static mut, no static with interior mutability, no thread_local!")
     e4.run_e4g(prog, rep)
     # positive control for E4.g: the detector recognises interior-mutable type names
-    rep.control("E4.g", bool(re.search(r"\b(Cell|RefCell)\b", "std::cell::RefCell<u32>")), "interior-mutability pattern")
     # I: entry points take &self
     rep.rule("C12.I", "a loaded file cannot change: execution entry points borrow it shared, its types hold no interior mutability, and only parser/checker write AST fields")
     entries = [f for f in prog.fns.values() if f.self_path in ("tsg::ast::File", "tsg::ast::Stanza") and re.match(r"^(execute\w*|try_visit_matches\w*|check_globals)$", f.name) and f.kind == "assocfn"]
